@@ -33,3 +33,18 @@ PROPS = {
         ],
     },
 }
+
+# ---- second engine of C18: the records the real loop writes with the real driver over pipes (tools/engines/realloop.py)
+PROPS["C18"] = dict(PROPS["C18"],
+                    engines=["wire", "realloop"],
+                    trusted=WIRE_TRUST + [
+                        "realloop engine: the real per-device loop with the real RealDriver (mio/epoll, DevInputReader, DevInputWriter) runs in a child process over pipes; every byte it writes to the virtual-keyboard pipe is compared with concat (map Wire.encode_batch sends) for the sends of the extracted mapper model on the key events Wire.decode_stream finds in the bytes written to the keyboard pipe (coq/extract/Extract_realloop.v). Trusted there: pipes in place of evdev/uinput nodes, a no-progress deadline of 6 s as the only timing element.",
+                    ],
+                    rule=PROPS["C18"]["rule"] +
+                    " || realloop engine: seeded key histories of 20-400 events on fixed, random and builtin layouts (no Special repeat), written as record "
+                    "scripts with foreign records interleaved in write(2) calls of 1..=300 records to the real loop running on pipes; the whole output stream "
+                    "(records of each send followed by one SYN_REPORT, in order) is compared byte for byte; evaluations += runs of the real loop",
+                    explanation=PROPS["C18"]["explanation"] +
+                    ". Second engine realloop: the records the REAL LOOP writes through the real DevInputWriter while reading through the real DevInputReader "
+                    "under real epoll are compared byte for byte with the model's batches; a malformed record, a missing or an extra SYN_REPORT is reported as "
+                    "clause C18.real_records with layout, history, batching and the first differing record (lost or duplicated key events are C10.real_epoll)")
